@@ -34,6 +34,8 @@ def run(ctx):
         "views_alias_checked": c.get("alias_checked", 0),
         "alloc_cases": run.alloc_counts.get("alloc_cases", 0), "alloc_cases_measured": run.alloc_counts.get("alloc_measured", 0),
         "alloc_cases_not_required": run.alloc_counts.get("alloc_not_required", 0),
+        "interleaved_sets_measured": run.alloc_counts.get("allocset_measured", 0),
+        "interleaved_frames_per_round_total": run.alloc_counts.get("allocset_frames", 0),
         "payload_ids_measured": sorted({x["x"]["o"]["id"] for x in alloc_cases if x["x"]["allocFree"]}),
         "statuses": sorted({x["status"] for x in alloc_cases}),
         "alloc_dimensions": {"quiet": sorted({x["x"]["quiet"] for x in alloc_cases}), "log": sorted({x["x"]["log"] for x in alloc_cases}),
